@@ -22,6 +22,43 @@ or, beyond numpy's 52 labels, with E1 on the call with the size-1 labels squeeze
 against numpy.einsum on the same squeezed call).  ``cotengra.einsum`` gets string / interleaved calls with
 27-52 distinct symbols over numpy's whole alphabet a-zA-Z (implicit output: sorted, upper case first).
 
+Front-end routes (monitors fe_* and the option monitors; one extra case per 4 ordinary ones, own seed stream):
+a call produced by the same grammars (no size-1 broadcasting) is sent through ANOTHER entry point of
+cotengra/interface.py and / or with arguments that must not change the value, and is still compared with
+numpy.einsum over the FULL operand list in the original positions:
+
+  routes     einsum_expression / array_contract_expression built from shapes (given as tuples, lists, numpy
+             integers, or size_dict), with ``constants=`` naming 0, some, all-but-one or ALL operands (list / tuple /
+             set of positions resp. {position: array}); the expression object is then called 1-3 times, every
+             call with NEW variable arrays (monitor expr_recall_new_arrays; constants folded when the
+             expression is built, by partial contraction whenever the tree joins two constants);
+             einsum_tree / array_contract_tree from shapes only, then tree.contract(arrays);
+             array_contract_path from shapes only: the path must be a valid linear path (path_route_valid) and is
+             fed back as ``optimize``; einsum / array_contract / ncon called directly with the options below
+  optimize   built-in presets (also 'dp', 'opt_einsum:greedy'), user presets registered with register_preset
+             (path function only / path and tree function / tree function only), explicit paths (tuple, list,
+             list of lists), edge paths, a ContractionTree of the same call (plain or sliced - the latter reaches
+             the Variadic wrapper), optimizer objects (GreedyOptimizer: .search; a plain function)
+  options    via=(x -> s_in * x, y -> s_out * y) with the reference computed through the same conversions
+             (constants are converted when the expression is built, variables at every call, the result once),
+             backend='numpy' (WithBackend / backend_like), implementation in {cotengra, autoray, a user pair},
+             prefer_einsum, autojit, sort_contraction_indices, strip_exponent (value = mantissa * 10**exponent;
+             float data only), cache / cache_expression=False, canonicalize=True / False (False with
+             single-letter labels: normalize_input without canonicalisation, implicit output in order of first
+             appearance, sizes from shapes)
+
+A user-registered preset must behave like the function registered under its name: on the path and tree
+routes the intermediates of the returned path / tree must be those of the path the function returns
+(user_preset_model; the three functions return fixed path families that depend on the number of operands only),
+and whenever no cache can stand in and the front end does not pre-empt the choice the function must really
+have been called (user_preset_consulted).  The four classes the library used to fail on (FINDINGS_widen-c.md
+F1-F4, repaired in cf6fb6b / df9c948 / f2a0970) are generated and counted by their own monitors: ALL operands
+constant - the expression is called without arguments, 1-3 times (expr_all_constants); a one-operand call that
+returns its operand unchanged, built with an EMPTY constants set (identity_empty_constants); one-operand calls
+through einsum_tree / array_contract_tree + tree.contract (one_operand_tree); the empty explicit path () / [] as
+``optimize`` of a one-operand call (empty_explicit_path) and the empty path that array_contract_path returns
+(one operand; an edge path that joins nothing) fed back as ``optimize`` (empty_path_fed_back).
+
 ``classify`` recognises mechanisms by *differential confirmation*: a violation gets a key only if
 exactly one "repair" of the call is applicable and makes the very same oracle pass:
 
@@ -62,9 +99,17 @@ RULE = (
     "/ array_contract_tree / array_contract_path with 27-70 distinct labels of the same kinds (20-55 "
     "tensors of rank 1-5, sizes 1-3, 2-8 labels appearing once spread over appearance ranks <=26, 27-52 "
     "and >52, output None in 85 %), or cotengra.einsum (string / interleaved, implicit / explicit output) "
-    "with 27-52 distinct symbols from a-zA-Z. "
+    "with 27-52 distinct symbols from a-zA-Z; "
+    "plus, once per 4 cases (own seed stream), a call of the same grammars (without size-1 broadcasting) sent through a "
+    "front-end route: einsum_expression / array_contract_expression from shapes with constants = none / empty / some / "
+    "all-but-one / all operands and 1-3 calls with new variable arrays (none to pass when all are constant), einsum_tree / array_contract_tree from shapes + "
+    "tree.contract, array_contract_path fed back as optimize, or the direct call; optimize drawn from built-in presets, "
+    "3 user-registered presets, explicit / edge paths, a (sliced) ContractionTree of the same call, optimizer objects; "
+    "options via (scaling conversions), backend, implementation, prefer_einsum, autojit, sort_contraction_indices, "
+    "strip_exponent, cache off, canonicalize on / off; shapes as tuples / lists / numpy ints / size_dict. "
     "distinct = distinct (form, equation skeleton [symbols replaced by their sorted rank], rank "
-    "pattern); non-trivial = has an ellipsis or an implicit output"
+    "pattern); non-trivial = has an ellipsis or an implicit output, or (front-end "
+    "routes) another entry point than the plain call, constants, a non-preset optimize or any option"
 )
 ASSUMPTIONS = [
     "numpy.einsum (2.x, optimize=False, C implementation) is the specification; it is cross-checked per "
@@ -74,6 +119,10 @@ ASSUMPTIONS = [
     "contractions with more than 52 labels cannot be written as one numpy.einsum call: the reference is the "
     "harness's gather-based evaluator E1 applied after removing every size-1 label (a size-1 label selects "
     "element 0 and contributes one summand), cross-checked against numpy.einsum on the same reduced call",
+    "front-end routes: the conversion functions given as via=, the user supplied implementation pair (numpy.einsum / "
+    "numpy.tensordot behind a counter) and the three registered preset functions are the harness's own; a ContractionTree "
+    "passed as optimize is obtained from the library's own einsum_tree / array_contract_tree for the same call; "
+    "strip_exponent results are judged as mantissa * 10**exponent within the same sound bound",
     "witnesses kept per shard: 1 per (confirmed mechanism key, monitor), 2 per (monitor, raises|shape|value) for "
     "unexplained failures; every failure is counted in 'violations_by_signature'",
 ]
@@ -84,6 +133,30 @@ REQUIRED_MONITORS = [
     "interleaved_vs_numpy",
     "single_operand_vs_numpy",
     "many_labels",
+    "fe_direct_options",
+    "fe_einsum_expression",
+    "fe_einsum_tree",
+    "fe_array_contract_expression",
+    "fe_array_contract_tree",
+    "fe_array_contract_path",
+    "path_route_valid",
+    "expr_constants",
+    "expr_recall_new_arrays",
+    "via_conversion",
+    "backend_kwarg",
+    "strip_exponent",
+    "no_canonicalize",
+    "user_preset",
+    "user_preset_model",
+    "user_preset_consulted",
+    "optimize_object",
+    "sliced_tree_as_optimize",
+    "explicit_path",
+    "expr_all_constants",
+    "identity_empty_constants",
+    "one_operand_tree",
+    "empty_explicit_path",
+    "empty_path_fed_back",
 ]
 SHARD_TIMEOUT = {"quick": 400, "thorough": 3600}
 
@@ -384,6 +457,8 @@ def many_reference(rep, case, arrays):
 
 
 def monitors_of(case):
+    if case.get("fe"):
+        return fe_monitors(case)
     e = case["entry"]
     many = ["many_labels"] if case.get("many") else []
     if e == "array_contract":
@@ -411,6 +486,8 @@ def execute(rep, case):
     (kind, message).  ``rep`` receives monitor and discard counts."""
     import cotengra as ctg
 
+    if case.get("fe"):
+        return execute_fe(rep, case)
     arrays = make_arrays(case)
     entry = case["entry"]
     mon = monitors_of(case)[0]
@@ -527,6 +604,12 @@ def execute(rep, case):
 
 
 def describe(case):
+    if case.get("fe"):
+        fe = case["fe"]
+        plain = {k: v for k, v in case.items() if k != "fe"}
+        opt = fe["opt"] if fe["opt"][0] != "edge" else ["edge", [dec_label(x) for x in fe["opt"][1]], fe["opt"][2]]
+        return (f"route={fe['route']} constants={fe['constants']} optimize={opt} options={fe['kw']} backend={fe['backend']} "
+                f"canonicalize={fe['canonicalize']} shapes_as={fe.get('shapes_as')} calls={fe['ncalls']} kind={case['kind']} of " + describe(plain))
     e = case["entry"]
     if e == "einsum":
         return f"einsum({case['eq']!r}, shapes={case['shapes']}, optimize={case.get('optimize')})"
@@ -992,9 +1075,9 @@ def gen_single(rng):
     return st, name
 
 
-def gen_einsum_case(rng, cs, tier):
+def gen_einsum_case(rng, cs, tier, allow_k1=True):
     r = rng.random()
-    k1 = r < 0.05
+    k1 = allow_k1 and r < 0.05
     single_name = None
     st = None
     if k1:
@@ -1340,11 +1423,613 @@ def gen_ncon_case(rng, cs, tier):
 
 
 # --------------------------------------------------------------------------- #
+#   front-end routes ("fe" cases): expressions with constants, trees built    #
+#   from shapes, the optimize dispatch, via / backend / other options         #
+# --------------------------------------------------------------------------- #
+# On top of the workload above (own seed stream): one case in FE_EVERY takes a call generated by the
+# same grammars and sends it through another entry point of the front end and / or with options that
+# must not change the value.  The specification stays numpy.einsum on the FULL operand list.
+
+FE_EVERY = 4
+FE_PRESETS = ("greedy", "greedy", "optimal", "auto", "eager", "opportunistic", "dp", "opt_einsum:greedy")
+FE_TREE_BASE = ("greedy", "optimal", "eager")
+# name -> (shape of the path it always returns, which functions are registered)
+USER_PRESETS = {"vf12-left": ("left", "path"), "vf12-right": ("right", "both"), "vf12-comb": ("comb", "tree")}
+PRESET_CALLS = {}
+_PRESETS_DONE = []
+FE_ROUTE_MON = {
+    "einsum": "fe_direct_options",
+    "array_contract": "fe_direct_options",
+    "ncon": "fe_direct_options",
+    "einsum_expression": "fe_einsum_expression",
+    "einsum_tree": "fe_einsum_tree",
+    "expression": "fe_array_contract_expression",
+    "tree": "fe_array_contract_tree",
+    "path": "fe_array_contract_path",
+}
+FE_EXPR_ROUTES = ("einsum_expression", "expression")
+CUSTOM_IMPL_CALLS = {"n": 0}
+
+
+def model_path(shape, n):
+    """Three fixed families of linear paths (functions of the number of operands only): what the
+    user-registered presets return, and the harness's model of them."""
+    if shape == "left":  # always the two oldest tensors
+        return tuple((0, 1) for _ in range(n - 1))
+    if shape == "right":  # always the two newest
+        return tuple((n - 2 - k, n - 1 - k) for k in range(n - 1))
+    if shape == "comb":  # the oldest with the newest
+        return tuple((0, n - 1 - k) for k in range(n - 1))
+    raise ValueError(shape)
+
+
+def _path_fn(shape, name):
+    def fn(inputs, output, size_dict, memory_limit=None, **kw):
+        PRESET_CALLS[name] = PRESET_CALLS.get(name, 0) + 1
+        return model_path(shape, len(inputs))
+
+    return fn
+
+
+def _tree_fn(shape, name):
+    def fn(inputs, output, size_dict, **kw):
+        from cotengra.core import ContractionTree
+
+        PRESET_CALLS[name] = PRESET_CALLS.get(name, 0) + 1
+        return ContractionTree.from_path(inputs, output, size_dict, path=model_path(shape, len(inputs)))
+
+    return fn
+
+
+def ensure_presets(ctg):
+    """register the harness's presets once per process (a name is never registered twice)"""
+    if _PRESETS_DONE:
+        return
+    for name, (shape, what) in USER_PRESETS.items():
+        ctg.register_preset(
+            name,
+            _path_fn(shape, name) if what in ("path", "both") else None,
+            optimizer_tree=_tree_fn(shape, name) if what in ("tree", "both") else None,
+        )
+    _PRESETS_DONE.append(True)
+
+
+def _custom_einsum(eq, *arrays):
+    CUSTOM_IMPL_CALLS["n"] += 1
+    return np.einsum(eq, *arrays)
+
+
+def _custom_tensordot(a, b, axes=2):
+    CUSTOM_IMPL_CALLS["n"] += 1
+    return np.tensordot(a, b, axes)
+
+
+def fe_monitors(case):
+    fe = case["fe"]
+    mons = [FE_ROUTE_MON[fe["route"]]]
+    if fe.get("constants") is not None:
+        mons.append("expr_constants")
+        if len(fe["constants"]) == len(case["shapes"]):
+            mons.append("expr_all_constants")
+        if fe.get("identity_empty_constants"):
+            mons.append("identity_empty_constants")
+    if fe["route"] in ("einsum_tree", "tree") and len(case["shapes"]) == 1:
+        mons.append("one_operand_tree")
+    kw = fe.get("kw") or {}
+    if kw.get("via"):
+        mons.append("via_conversion")
+    if fe.get("backend"):
+        mons.append("backend_kwarg")
+    if kw.get("strip_exponent"):
+        mons.append("strip_exponent")
+    if fe.get("canonicalize") is False or (fe["route"] == "einsum_tree" and fe.get("canonicalize") is None):
+        mons.append("no_canonicalize")
+    k = fe["opt"][0]
+    if k == "user":
+        mons.append("user_preset")
+    elif k in ("tree", "sliced", "object"):
+        mons.append("optimize_object")
+    elif k in ("explicit", "edge"):
+        mons.append("explicit_path")
+        if k == "explicit" and len(fe["opt"][1]) == 0:
+            mons.append("empty_explicit_path")
+    return mons
+
+
+def _shape_form(shp, form):
+    shp = [int(d) for d in shp]
+    if form == "list":
+        return list(shp)
+    if form == "npint":
+        return tuple(np.int64(d) for d in shp)
+    if form == "npint_later":
+        return tuple(d if k == 0 else np.int64(d) for k, d in enumerate(shp))
+    return tuple(shp)
+
+
+def fe_shape_args(case, arrays, constants, form=None):
+    """the arguments of einsum_expression / einsum_tree: the call with every operand replaced by its
+    shape, except the constant positions, which carry the array itself"""
+    form = form or case["fe"].get("shapes_as") or "tuple"
+    ops = [
+        arrays[i] if (constants is not None and i in constants) else _shape_form(shp, form)
+        for i, shp in enumerate(case["shapes"])
+    ]
+    return einsum_args(case, ops)
+
+
+def _ac_terms(case):
+    """(inputs, output) of an array_contract / ncon case as the library is given them"""
+    if case["entry"] == "ncon":
+        inputs = [tuple(int(l) for l in term) for term in case["indices"]]
+        output = tuple(sorted({l for t in inputs for l in t if l < 0}, reverse=True))
+        return inputs, output
+    inputs = [tuple(dec_label(e) for e in term) for term in case["inputs"]]
+    output = None if case["output"] is None else tuple(dec_label(e) for e in case["output"])
+    if case.get("inputs_as_lists"):
+        inputs = [list(t) for t in inputs]
+    return inputs, output
+
+
+def _ac_sizes(case, inputs):
+    """size information: shapes=... or (30 %) size_dict=..."""
+    shapes = [tuple(int(d) for d in shp) for shp in case["shapes"]]
+    if case.get("size_dict"):
+        sd = {}
+        for term, shp in zip(inputs, shapes):
+            for ix, d in zip(term, shp):
+                sd[ix] = d
+        return {"size_dict": sd}
+    return {"shapes": shapes}
+
+
+def fe_optimize(ctg, case, arrays, obs):
+    """the ``optimize`` argument of the case (built afresh for every execution)"""
+    opt = case["fe"]["opt"]
+    kind = opt[0]
+    if kind in ("preset", "user"):
+        return opt[1]
+    if kind == "explicit":
+        form = opt[2]
+        if form == "tuple":
+            return tuple(tuple(p) for p in opt[1])
+        if form == "list":
+            return [tuple(p) for p in opt[1]]
+        return [list(p) for p in opt[1]]
+    if kind == "edge":
+        labels = [dec_label(e) for e in opt[1]]
+        return tuple(labels) if opt[2] == "tuple" else labels
+    if kind in ("tree", "sliced"):
+        # a ContractionTree for the very same call, obtained from the library's own front end
+        if case["entry"] in ("einsum", "interleaved"):
+            tree = ctg.einsum_tree(*fe_shape_args(case, arrays, None, form="tuple"), optimize=opt[1])
+        else:
+            inputs, output = _ac_terms(case)
+            tree = ctg.array_contract_tree(inputs, output, shapes=[tuple(int(d) for d in s) for s in case["shapes"]], optimize=opt[1])
+        if kind == "sliced":
+            try:
+                tree.slice_(target_slices=2, max_repeats=2, seed=0)
+            except Exception:
+                pass
+            obs["sliced"] = bool(tree.sliced_inds)
+        return tree
+    if kind == "object":
+        if opt[1] == "GreedyOptimizer":
+            return ctg.GreedyOptimizer()
+        return _path_fn(opt[2], "anonymous-fn")
+    raise ValueError(kind)
+
+
+def fe_kwargs(case):
+    """library keyword arguments from the JSON-able option dict"""
+    kw = dict(case["fe"].get("kw") or {})
+    if kw.get("via"):
+        s_in, s_out = kw["via"]
+        kw["via"] = ((lambda x, s=float(s_in): x * s), (lambda y, s=float(s_out): (y[0] * s, y[1]) if isinstance(y, tuple) else y * s))
+    if kw.get("implementation") == "custom":
+        kw["implementation"] = (_custom_einsum, _custom_tensordot)
+    return kw
+
+
+def fe_build(ctg, case, arrays, obs):
+    """Build whatever the route builds ONCE (expression / tree / path) from the shapes (and constants);
+    -> run(arrays) giving the route's result for a full operand list."""
+    fe = case["fe"]
+    route = fe["route"]
+    consts = fe.get("constants")
+    kw = fe_kwargs(case)
+    cache = kw.pop("cache", True)
+    opt = fe_optimize(ctg, case, arrays, obs)
+    okw = {} if (isinstance(opt, str) and opt == "auto") else {"optimize": opt}
+    canon = {} if fe.get("canonicalize") is None else {"canonicalize": bool(fe["canonicalize"])}
+    call_kw = {"backend": fe["backend"]} if fe.get("backend") else {}
+
+    def variables(arrs):
+        return [a for i, a in enumerate(arrs) if consts is None or i not in consts]
+
+    if route in ("einsum", "array_contract", "ncon"):
+        direct = dict(kw, **okw, **canon, **call_kw)
+        if not cache:
+            direct["cache_expression"] = False
+        if route == "einsum":
+            return lambda arrs: ctg.einsum(*einsum_args(case, arrs), **direct)
+        inputs, output = _ac_terms(case)
+        if route == "ncon":
+            conv = tuple if case.get("indices_as_tuples") else list
+            return lambda arrs: ctg.ncon(arrs, [conv(t) for t in inputs], **direct)
+        return lambda arrs: ctg.array_contract(arrs, inputs, output, **direct)
+
+    if route == "einsum_expression":
+        ekw = dict(kw, **okw, **canon)
+        if consts is not None:
+            ekw["constants"] = {"list": list, "tuple": tuple, "set": set}[fe.get("const_container") or "list"](consts)
+        expr = ctg.einsum_expression(*fe_shape_args(case, arrays, consts), cache=cache, **ekw)
+        return lambda arrs: expr(*variables(arrs), **call_kw)
+
+    if route == "einsum_tree":
+        tkw = dict(okw, **canon)
+        if kw.get("sort_contraction_indices"):
+            tkw["sort_contraction_indices"] = True
+        tree = ctg.einsum_tree(*fe_shape_args(case, arrays, None), **tkw)
+        obs["tree"] = tree
+        return lambda arrs: tree.contract(arrs)
+
+    inputs, output = _ac_terms(case)
+    how = _ac_sizes(case, inputs)
+    if route == "expression":
+        ekw = dict(kw, **okw, **canon, **how)
+        if consts is not None:
+            ekw["constants"] = {int(i): arrays[i] for i in consts}
+        expr = ctg.array_contract_expression(inputs, output, cache=cache, **ekw)
+        return lambda arrs: expr(*variables(arrs), **call_kw)
+    if route == "tree":
+        tkw = dict(okw, **canon, **how)
+        if kw.get("sort_contraction_indices"):
+            tkw["sort_contraction_indices"] = True
+        tree = ctg.array_contract_tree(inputs, output, **tkw)
+        obs["tree"] = tree
+        return lambda arrs: tree.contract(arrs)
+    if route == "path":
+        path = ctg.array_contract_path(inputs, output, cache=cache, **dict(okw, **canon, **how))
+        obs["path"] = path
+        # (also the EMPTY path - one operand; an edge path that joins nothing - is fed back: FINDINGS_widen-c.md F4)
+        obs["empty_path_fed_back"] = len(path) == 0
+        return lambda arrs: ctg.array_contract(arrs, inputs, output, optimize=path)
+    raise ValueError(route)
+
+
+def fe_call_arrays(case, base, j):
+    """operands of the j-th call: the constants stay, every variable operand is new"""
+    if j == 0:
+        return base
+    fresh = make_arrays(dict(case, case_seed=f"{case['case_seed']}/call{j}"))
+    consts = case["fe"].get("constants") or []
+    return [base[i] if i in consts else fresh[i] for i in range(len(base))]
+
+
+def fe_spec(case, arrays):
+    """numpy.einsum on the full operand list (through the via conversions when given)
+    -> (want, bound); raises whatever numpy raises"""
+    via = (case["fe"].get("kw") or {}).get("via")
+    if via:
+        arrays = [a * float(via[0]) for a in arrays]
+    if case["entry"] in ("einsum", "interleaved"):
+        np_args = einsum_args(case, arrays)
+        abs_args = einsum_args(case, [np.abs(a) for a in arrays])
+    else:
+        eq = equivalent_eq(case)
+        np_args = [eq, *arrays]
+        abs_args = [eq, *[np.abs(a) for a in arrays]]
+    want = np.einsum(*np_args)
+    bound = np.einsum(*abs_args)
+    if via:
+        want = want * float(via[1])
+        bound = bound * abs(float(via[1]))
+    return np.asarray(want), np.asarray(bound)
+
+
+def fe_judge(rep, mon, case, got, want, bound, n):
+    strip = bool((case["fe"].get("kw") or {}).get("strip_exponent"))
+    if strip:
+        try:
+            mant, ex = got
+            got = np.asarray(mant) * 10.0 ** float(ex)
+        except Exception as e:
+            return (f"{mon}:type", f"strip_exponent=True did not give (mantissa, exponent): {e!r}")
+    try:
+        got = np.asarray(got)
+    except Exception as e:
+        return (f"{mon}:type", f"result not array-like: {e!r}")
+    if got.dtype == object:
+        return (f"{mon}:type", f"result is not a numeric array: {got!r:.200}")
+    if got.shape != want.shape:
+        return (f"{mon}:shape", f"shape {got.shape} != numpy's {want.shape}")
+    if not strip and exact_kind(case["kind"]) and float(np.max(np.abs(bound), initial=0.0)) < 2.0**50:
+        rep.mon("exact_int")
+        if not np.array_equal(got, want):
+            return (f"{mon}:value", f"exact integer data: got {got.tolist()!r:.200} numpy {want.tolist()!r:.200}")
+        return None
+    msg = ref.compare(got, want, bound, int(case.get("space") or 1), n)
+    return (f"{mon}:value", msg) if msg else None
+
+
+def execute_fe(rep, case):
+    """The oracle for a front-end-route case; same contract as ``execute``."""
+    import warnings
+
+    import cotengra as ctg
+
+    ensure_presets(ctg)
+    fe = case["fe"]
+    mons = fe_monitors(case)
+    mon = "+".join(mons)
+    n = len(case["shapes"])
+    base = make_arrays(case)
+    try:
+        if case["entry"] not in ("einsum", "interleaved"):
+            equivalent_eq(case)
+    except Exception as e:
+        rep.inconclusive_case(f"harness could not build the equivalent equation: {e!r}")
+        return None
+    try:
+        want, bound = fe_spec(case, base)
+    except Exception as e:
+        rep.count("discarded", _short(e))
+        rep.count("discarded_by_form", case.get("form", case["entry"]) + "/fe")
+        return None
+    obs = {}
+    ncalls = int(fe.get("ncalls") or 1)
+    with warnings.catch_warnings():
+        warnings.simplefilter("ignore")
+        consulted = PRESET_CALLS.get(fe["opt"][1], 0) if fe["opt"][0] == "user" else None
+        try:
+            run = fe_build(ctg, case, base, obs)
+            got = run(base)
+        except Exception as e:
+            for m in mons:
+                rep.mon(m)
+            tb = traceback.format_exc()
+            return (f"{mon}:raises:{type(e).__name__}", f"{type(e).__name__}: {str(e)[:300]} | {tb[-600:]}")
+        for m in mons:
+            rep.mon(m)
+        if obs.get("sliced"):
+            rep.mon("sliced_tree_as_optimize")
+        if obs.get("empty_path_fed_back"):
+            rep.mon("empty_path_fed_back")
+        res = fe_judge(rep, mon, case, got, want, bound, n)
+        if res:
+            return res
+        # ---- structure: what came back through a path / tree route -----------------------
+        if "path" in obs:
+            given = fe["opt"][0] in ("explicit", "edge")
+            rep.mon("path_route_valid")
+            try:
+                msg = ref.check_linear_path(n, obs["path"], allow_incomplete=given)
+            except Exception as e:
+                msg = f"not a path: {e!r}"
+            if msg:
+                return (f"{mon}:path_invalid", f"array_contract_path returned {obs['path']!r}: {msg}")
+        if fe["opt"][0] == "user" and ("path" in obs or "tree" in obs):
+            # a registered preset must behave like the function registered under its name
+            shape = USER_PRESETS[fe["opt"][1]][0]
+            model = set(ref.path_to_nodes(n, model_path(shape, n)))
+            if "path" in obs:
+                nodes = set(ref.path_to_nodes(n, [tuple(int(i) for i in p) for p in obs["path"]]))
+            else:
+                nodes = {frozenset(p) for p in obs["tree"].children}
+            rep.mon("user_preset_model")
+            if nodes != model:
+                return (
+                    f"{mon}+user_preset_model:structure",
+                    f"preset {fe['opt'][1]!r} is registered to return the path {model_path(shape, n)} but the {fe['route']} "
+                    f"route produced the intermediates {sorted(sorted(x) for x in nodes)}",
+                )
+        # ---- a registered preset is really consulted (whenever nothing cached could stand in for it and the
+        # front end does not pre-empt the choice: three or more operands, or the path route) ----------------
+        uncached = fe["route"] in ("einsum_tree", "tree") or fe["kw"].get("cache") is False
+        if consulted is not None and uncached and (n >= 3 or fe["route"] == "path"):
+            rep.mon("user_preset_consulted")
+            if PRESET_CALLS.get(fe["opt"][1], 0) == consulted:
+                return (f"{mon}+user_preset_consulted:ignored", f"the function registered as preset {fe['opt'][1]!r} was never called")
+        # ---- the same expression object on new variable arrays ----------------------------
+        for j in range(1, ncalls):
+            arrays = fe_call_arrays(case, base, j)
+            want, bound = fe_spec(case, arrays)
+            rmon = mon + "+expr_recall_new_arrays"
+            rep.mon("expr_recall_new_arrays")
+            try:
+                got = run(arrays)
+            except Exception as e:
+                return (f"{rmon}:raises:{type(e).__name__}", f"call {j + 1} of the same expression: {type(e).__name__}: {str(e)[:300]}")
+            res = fe_judge(rep, rmon, case, got, want, bound, n)
+            if res:
+                return (res[0], f"call {j + 1} of the same expression (new variable arrays): {res[1]}")
+    return None
+
+
+def random_linear_path(rng, n):
+    path = []
+    cur = n
+    while cur > 1:
+        path.append(sorted(rng.sample(range(cur), 2)))
+        cur -= 1
+    return path
+
+
+def _relabel_chars(rng, case):
+    """array_contract labels -> distinct single letters (what canonicalize=False is given)"""
+    pool = list(LETTERS52)
+    rng.shuffle(pool)
+    labs = {}
+
+    def m(e):
+        return labs.setdefault(repr(e), ["s", pool[len(labs)]])
+
+    case["inputs"] = [[m(e) for e in t] for t in case["inputs"]]
+    if case["output"] is not None:
+        case["output"] = [m(e) for e in case["output"]]
+    case["label_kind"] = "char1"
+
+
+def _edge_labels(case):
+    """all index labels of the call if an 'edge path' (a sequence of int / str labels) can name them"""
+    if case["entry"] == "einsum":
+        eq = case["eq"].replace(" ", "")
+        if "." in eq:
+            return None
+        return [["s", c] for c in dict.fromkeys(eq.split("->")[0].replace(",", ""))]
+    if case["entry"] == "array_contract":
+        labs = list({repr(e): e for t in case["inputs"] for e in t}.values())
+        if all(e[0] in ("i", "s") for e in labs):
+            return labs
+    return None
+
+
+def _maybe_identity(case):
+    """one-operand call whose output term equals its input term (or the harness cannot tell)"""
+    if case["entry"] in ("einsum", "interleaved"):
+        exp = case.get("expanded")
+        return exp is None or list(exp["inputs"][0]) == list(exp["output"])
+    if case["entry"] == "array_contract":
+        terms, out = numbered(case)
+        return list(terms[0]) == list(out)
+    return False
+
+
+def gen_fe_case(rng, cs, tier):
+    base = _wchoice(rng, [("einsum", 11), ("array_contract", 8), ("ncon", 1)])
+    if base == "einsum":
+        case = gen_einsum_case(rng, cs, tier, allow_k1=False)
+        route = _wchoice(rng, [("einsum_expression", 6), ("einsum_tree", 2), ("einsum", 3)])
+    elif base == "array_contract":
+        case = gen_array_contract_case(rng, cs, tier)
+        route = _wchoice(rng, [("expression", 6), ("tree", 2), ("path", 2), ("array_contract", 2)])
+    else:
+        case = gen_ncon_case(rng, cs, tier)
+        route = "ncon"
+    n = len(case["shapes"])
+    identity = n == 1 and _maybe_identity(case)
+    case["expanded"] = None
+    fe = {"route": route, "constants": None, "ncalls": 1, "kw": {}, "backend": None, "canonicalize": None}
+    floaty = not exact_kind(case["kind"])
+
+    # ---- constants ---------------------------------------------------------------------
+    ccls = "n/a"
+    if route in FE_EXPR_ROUTES:
+        ccls = _wchoice(rng, [("none", 2), ("empty", 1), ("some", 4), ("all-but-one", 3), ("all", 1)])
+        if ccls == "all" or (ccls == "some" and n == 1):
+            # every operand constant: the expression is called without arguments (FINDINGS_widen-c.md F1)
+            consts, ccls = list(range(n)), "all"
+        elif ccls == "empty" or (ccls == "all-but-one" and n == 1):
+            # (for one operand returned unchanged this was FINDINGS_widen-c.md F2)
+            consts, ccls = [], "empty"
+        elif ccls == "some":
+            consts = sorted(rng.sample(range(n), rng.randint(1, n - 1)))
+        elif ccls == "all-but-one":
+            consts = sorted(set(range(n)) - {rng.randrange(n)})
+        else:
+            consts = None
+        fe["constants"] = consts
+        fe["const_container"] = rng.choice(["list", "list", "tuple", "set"])
+        fe["ncalls"] = _wchoice(rng, [(1, 2), (2, 4), (3, 2)])
+    fe["const_class"] = ccls
+    fe["identity_empty_constants"] = bool(identity and fe["constants"] == [])
+
+    # ---- canonicalize --------------------------------------------------------------------
+    if route == "einsum_tree":
+        fe["canonicalize"] = rng.choice([None, None, True, False])
+    elif fe["constants"] is None and rng.random() < 0.25:
+        # (with constants the keyword is not part of the signature)
+        if base == "array_contract":
+            _relabel_chars(rng, case)
+            fe["canonicalize"] = False
+        elif base == "einsum":
+            fe["canonicalize"] = False
+    elif fe["constants"] is None and rng.random() < 0.1:
+        fe["canonicalize"] = True
+
+    # ---- optimize ------------------------------------------------------------------------
+    kinds = [("preset", 8), ("user", 5), ("explicit", 2), ("tree", 2), ("sliced", 2), ("object", 2)]
+    edge = _edge_labels(case)
+    if edge:
+        kinds.append(("edge", 2))
+    kind = _wchoice(rng, kinds)
+    if kind == "preset":
+        opt = ["preset", rng.choice(FE_PRESETS)]
+    elif kind == "user":
+        names = [k for k, (_s, what) in sorted(USER_PRESETS.items()) if what != "tree" or route != "path"]
+        opt = ["user", rng.choice(names)]
+    elif kind == "explicit":
+        opt = ["explicit", random_linear_path(rng, n), rng.choice(["tuple", "list", "list_of_lists"])]
+    elif kind == "edge":
+        rng.shuffle(edge)
+        opt = ["edge", edge, rng.choice(["list", "tuple"])]
+    elif kind in ("tree", "sliced"):
+        opt = [kind, rng.choice(FE_TREE_BASE)]
+    else:
+        opt = ["object", rng.choice(["GreedyOptimizer", "path_fn"]), rng.choice(["left", "right", "comb"])]
+    fe["opt"] = opt
+
+    # ---- options that must not change the value -----------------------------------------
+    kw = {}
+    full = route in ("einsum", "array_contract", "ncon") or route in FE_EXPR_ROUTES
+    if full:
+        if rng.random() < 0.2:
+            kw["via"] = [rng.choice([2.0, -1.0, 3.0]), rng.choice([3.0, -2.0, 0.5])]
+        if rng.random() < 0.2:
+            fe["backend"] = "numpy"
+        if rng.random() < 0.2:
+            # (user supplied functions are handed lazy arrays while constants are folded: plain numpy functions
+            # cannot take part in that, so the custom pair only goes with expressions without constants)
+            kw["implementation"] = rng.choice(["cotengra", "autoray", "custom"] if fe["constants"] is None else ["cotengra", "autoray"])
+        if rng.random() < 0.12:
+            kw["prefer_einsum"] = True
+        if rng.random() < 0.04 and kw.get("implementation") != "custom":
+            # (autojit traces the contraction with lazy arrays too: not with the plain numpy pair)
+            kw["autojit"] = True
+        if floaty and fe["constants"] is None and rng.random() < 0.15:
+            # (not with constants: strip_exponent is not part of that signature)
+            kw["strip_exponent"] = True
+    if route != "path" and rng.random() < 0.1:
+        kw["sort_contraction_indices"] = True
+    if route not in ("einsum_tree", "tree") and rng.random() < 0.25:
+        kw["cache"] = False
+    fe["kw"] = kw
+    if route in ("einsum_expression", "einsum_tree"):
+        # (documented: tuples of int.  Lists / numpy integers are converted by the parser when ALL shapes have that
+        # form; next to constant ARRAYS the forms are mixed, which the documentation does not promise: tuples there)
+        fe["shapes_as"] = _wchoice(rng, [("tuple", 5), ("list", 2), ("npint", 1.5), ("npint_later", 1)]) if not fe["constants"] else "tuple"
+    case["fe"] = fe
+    case["form"] = case["form"] + "/fe:" + route
+    return case
+
+
+def fe_counts(rep, case):
+    fe = case["fe"]
+    rep.count("fe_route", fe["route"])
+    rep.count("fe_constants", f"{fe['route']} | {fe['const_class']}" if fe["route"] in FE_EXPR_ROUTES else "n/a")
+    rep.count("fe_optimize_kind", fe["opt"][0] + (":" + str(fe["opt"][1]) if fe["opt"][0] in ("preset", "user", "object") else ""))
+    for k in sorted(fe["kw"]):
+        rep.count("fe_options", k + ("=" + str(fe["kw"][k]) if k == "implementation" else ""))
+    rep.count("fe_options", "canonicalize=" + str(fe["canonicalize"]))
+    if fe.get("backend"):
+        rep.count("fe_options", "backend=" + fe["backend"])
+    if fe.get("shapes_as"):
+        rep.count("fe_shapes_given_as", fe["shapes_as"])
+    if fe["route"] in FE_EXPR_ROUTES:
+        rep.count("fe_calls_per_expression", fe["ncalls"])
+
+
+# --------------------------------------------------------------------------- #
 #                                   driver                                    #
 # --------------------------------------------------------------------------- #
 
 
 def case_key(case):
+    if case.get("fe"):
+        fe = case["fe"]
+        plain = {k: v for k, v in case.items() if k != "fe"}
+        return (case_key(plain), fe["route"], fe["const_class"], fe["opt"][0], tuple(sorted(fe["kw"])), fe["canonicalize"], fe["backend"])
     e = case["entry"]
     ranks = tuple(len(s) for s in case["shapes"])
     if e in ("einsum", "interleaved"):
@@ -1366,6 +2051,11 @@ def case_key(case):
 
 
 def nontrivial(case):
+    if case.get("fe"):
+        # goes through another entry point, or carries constants / a non-preset optimize / an option
+        fe = case["fe"]
+        if fe["route"] not in ("einsum", "array_contract", "ncon") or fe["opt"][0] != "preset" or fe["kw"] or fe["backend"]:
+            return True
     e = case["entry"]
     if e in ("einsum", "interleaved"):
         implicit = (e == "einsum" and "->" not in case["eq"]) or (e == "interleaved" and case.get("out") is None)
@@ -1407,7 +2097,10 @@ def run_case(rep, case, seen_sig):
                 "+".join(n for n, lo, hi in (("early", 0, 26), ("middle", 26, 52), ("late", 52, 10**6)) if any(lo <= k < hi for k in rk)),
             )
         rep.count("array_contract_labels", f"{case['label_kind']} | output={'None' if case['output'] is None else 'given'} | size_dict={case['size_dict']}")
-    rep.count("optimize", case.get("optimize"))
+    if case.get("fe"):
+        fe_counts(rep, case)
+    else:
+        rep.count("optimize", case.get("optimize"))
     rep.count("dtype_kind", case["kind"])
     rep.count("n_operands", len(case["shapes"]))
     before = rep.extra["discarded"].total() if "discarded" in rep.extra else 0
@@ -1442,7 +2135,7 @@ def run_case(rep, case, seen_sig):
 
 def run_shard(rep, tier, seed, shard, nshards):
     dl = Deadline(budget(tier, 40, 400))
-    ncases = budget(tier, 4000, 40000)
+    ncases = budget(tier, 12000, 60000)
     seen_sig = {}
     for k in range(ncases):
         if dl.expired():
@@ -1467,6 +2160,10 @@ def run_shard(rep, tier, seed, shard, nshards):
             else:
                 case = gen_many_einsum_case(rng, cs, tier)
             run_case(rep, case, seen_sig)
+        # on top again (own seed stream): front-end routes, constants, optimize dispatch, options
+        if k % FE_EVERY == 2:
+            cs = f"{seed}/{PID}/{shard}/fe/{k}"
+            run_case(rep, gen_fe_case(rng_for(cs), cs, tier), seen_sig)
 
 
 def replay(rep, v):
